@@ -288,6 +288,10 @@ func (c *Ctx) flush() {
 	os.WriteFile(c.outPath, b, 0o644)
 }
 
+// Alive tells the watchdog that the worker is waiting for a long-running step of its own (a subprocess with a
+// deadline of its own), not stuck inside a case.
+func (c *Ctx) Alive() { atomic.AddInt64(&c.progress, 1) }
+
 // HangTimeout is how long a worker may make no progress before the current case is reported as a
 // hang (normal cases take microseconds to milliseconds).
 var HangTimeout = 120 * time.Second
